@@ -8,6 +8,8 @@ func init() {
 	vHarnesses["VH_C01_ops1"] = VH_C01_ops1
 	vHarnesses["VH_C01_ops3"] = VH_C01_ops3
 	vHarnesses["VH_C01_cap"] = VH_C01_cap
+	vHarnesses["VH_C01_cycles"] = VH_C01_cycles
+	vHarnesses["VH_C01_srcfmt"] = VH_C01_srcfmt
 	vHarnesses["VH_C01_history"] = VH_C01_history
 	vHarnesses["VH_C01_lazyrec"] = VH_C01_lazyrec
 }
@@ -180,20 +182,76 @@ func VH_C01_lazyrec() {
 var vC01HistFirst = []string{"4d6kh3 + 2d4", "x = 5; x + 2d6", "`a{2d6}b`", "func fn1() { 2d6 }; fn1() + d20", "&v1 = 2d6; v1 + 1", "1 + 2"}
 var vC01HistSecond = []string{"(", "1/0", "[1][5]", "x.y.z", "7", "7 +", "", "d", "'", "nosuch(1)", "2d6", "v1", "^st力量60"}
 
-//vh:prop=C01 tiers=quick,thorough sigkeys=first,second,third summaries=Roll:roll-contract unwind=6 unwind_ok=1 budget_s=900 thorough:P.third=1 bounds="histories on one VM: one of 6 programs that record process-text spans (dice, variables, templates, functions, computed values), then one of 13 follow-up texts (syntax errors, run-time errors, the empty text, shorter and longer programs, an st command), then (thorough) a third text; all observers after every step, dice symbolic Roll-contract values"
+//vh:prop=C01 tiers=quick,thorough sigkeys=first,second,third,api summaries=Roll:roll-contract unwind=6 unwind_ok=1 budget_s=900 thorough:P.third=1 bounds="histories on one VM: one of 6 programs that record process-text spans (dice, variables, templates, functions, computed values), then one of 13 follow-up texts through Run or through Parse + RunAfterParsed (the second called whatever the first returned) (syntax errors, run-time errors, the empty text, shorter and longer programs, an st command), then (thorough) a third text; all observers after every step, dice symbolic Roll-contract values"
 func VH_C01_history() {
 	vm := vNewVM()
 	vm.Config.OpCountLimit = 30000
 	vm.Config.CallbackSt = func(string, string, *VMValue, *VMValue, string, string) {}
 	err := vm.Run(vC01HistFirst[vChoice("first", len(vC01HistFirst))])
 	vObserveAll(vm, err)
-	err = vm.Run(vC01HistSecond[vChoice("second", len(vC01HistSecond))])
+	second := vC01HistSecond[vChoice("second", len(vC01HistSecond))]
+	if vChoice("api", 2) == 1 {
+		// the two-step API, the second step taken whatever the first returned
+		_ = vm.Parse(second)
+		vObserveAll(vm, vm.Error)
+		err = vm.RunAfterParsed()
+	} else {
+		err = vm.Run(second)
+	}
 	vReach("second")
 	vObserveAll(vm, err)
 	if vParam("third", 0) == 1 {
 		err = vm.Run(vC01HistSecond[vChoice("third", len(vC01HistSecond))])
 		vObserveAll(vm, err)
 	}
+}
+
+//vh:prop=C01 tiers=quick,thorough sigkeys=lang unwind=400 unwind_ok=1 lencap=16 budget_s=1500 quick:P.n=3 thorough:P.n=4 bounds="every source text of exactly n bytes (3 quick, 4 thorough) over {( [ & 1 . , + newline space} parsed with the real syntax-error formatter (not stubbed) under the three language settings, through Parse, and through RunExpr in a sub-VM: no panic while the error text is built (positions at a line break, column 0, end of input)"
+func VH_C01_srcfmt() {
+	src := string(vSymSource("b", vParam("n", 3), "([&1.,+\n "))
+	vm := NewVM()
+	vm.Config.ParseErrorLanguage = vChoice("lang", 3)
+	err := vm.Parse(src)
+	vReach("parsed")
+	if err != nil {
+		_ = err.Error()
+		_ = vm.GetErrorText()
+		_, e2 := vm.RunExpr(src, false)
+		if e2 != nil {
+			_ = e2.Error()
+		}
+	}
+}
+
+// values that contain themselves (scripts can build them by assignment)
+var vC01CycleSetups = []string{
+	"x = [1]; x[0] = x; y = x",
+	"x = {'a': 1}; x.a = x; y = x",
+	"x = [1]; y = [x]; x[0] = y",
+	"x = {}; x.__proto__ = x; y = x",
+	"x = {}; y = {}; x.__proto__ = y; y.__proto__ = x",
+	"x = [1]; x[0] = x; y = [1]; y[0] = y",
+	"x = {'a': 1}; x.a = x; y = {'a': 1}; y.a = y",
+	"x = {'k': [1]}; x.k[0] = x; y = [x, x]",
+	"x = [1, 2]; x[0] = x; y = [1, 3]; y[0] = y",
+}
+var vC01CycleOps = []string{
+	"x == x", "x == y", "x != y", "x == [1]", "[x] == [y]", "{'k': x} == {'k': y}", "toStr(x)", "repr(y)", "`{x}`", "x + x", "x * 2", "x.len()",
+	"x.q", "x.q = 1; x.q", "x[0]", "x[0][0][0]", "-x", "x ? 1 : 2", "x.sum()", "x.keys()", "x.kh()", "x.pop()", "x[0:1]", "dir(x)", "typeId(x)",
+	"x ?? 1", "load('x')", "x.shuffle()", "x.rand()", "x.items()", "x.values()", "[x, y].kh(1)", "x < y", "x && y", "x.a.a.a", "y.__proto__.q",
+}
+
+//vh:prop=C01 tiers=quick,thorough sigkeys=setup,op summaries=Roll:roll-contract unwind=6 unwind_ok=1 depth_is_violation=1 maxdepth=5000 hang_is_violation=1 maxsteps=60000000 budget_s=900 bounds="9 ways a script builds self-referential values (array / dict containing itself, two-node cycles, __proto__ cycles of length 1 and 2, pairs of isomorphic cycles) x 36 operations on them (equality in 6 forms, printing, templates, arithmetic, attribute read / write, indexing, every array / dict method, builtins), op budget 30000, all observers afterwards: returns within 60 M interpreted steps and 5000 Go frames with a value or an error"
+func VH_C01_cycles() {
+	vm := vNewVM()
+	vm.Config.OpCountLimit = 30000
+	err := vm.Run(vC01CycleSetups[vChoice("setup", len(vC01CycleSetups))])
+	if err != nil {
+		return
+	}
+	err = vm.Run(vC01CycleOps[vChoice("op", len(vC01CycleOps))])
+	vReach("ran")
+	vObserveAll(vm, err)
 }
 
 //vh:prop=C01 tiers=quick,thorough sigkeys=cfg overrides=formatFriendlyError summaries=Roll:roll-log unwind=400 unwind_ok=1 maxsteps=8000000 budget_s=1800 quick:P.n=2 thorough:P.n=3 bounds="every source text of exactly n bytes over ALL byte values 0x00-0xFF (n=2 quick, n=3 thorough; invalid UTF-8 included; shorter texts arise as prefixes followed by a rejected or ignored byte), parsed, run and observed (value, repr, process text, bytecode listing, matched / rest text, error text) and run a second time on the same VM, under 4 configurations (default; every dice family on with min mode; DisableStmts+DisableNDice+DisableBitwiseOp; IgnoreDiv0 with a default-sides expression and budgets 200 / 100): no panic site is feasible; dice are fixed low faces; syntax-error formatting is stubbed here (C19 covers it)"
